@@ -1685,6 +1685,7 @@ def serialize_container_file_output(obj, root):
         "save_as": bool(obj.save_as),
         "relative_path": rel,
         "rc": rc,
+        "cmd": obj.cmd,
         "image": obj.image,
         "engine": obj.engine,
         "container_id": obj.container_id,
@@ -1696,6 +1697,7 @@ def deserialize_container_file(_type, data, root, ctx, ds):
     rel = data["relative_path"]
     res = SerializedOutputProvider(rel, root=root, ctx=ctx, ds=ds)
     res.rc = data["rc"]
+    res.cmd = data.get("cmd")
     res.image = data["image"]
     res.engine = data["engine"]
     res.container_id = data["container_id"]
